@@ -48,6 +48,7 @@ type State struct {
 	larr    map[ssa.Value]*LocalArr             // non-escaping literal/varargs arrays kept out of the shared heap
 	globals map[string]string                   // values stored to package-level variables on this path
 	lobj    map[ssa.Value]string                // non-escaping local struct variables kept as value terms
+	callHeaps map[string]map[string]string      // "callee#k" -> heaps right after that call returned
 }
 
 // LocalArr is the content of an array allocated for a composite literal or a variadic call.
@@ -109,6 +110,10 @@ func (s *State) clone() *State {
 	n.globals = map[string]string{}
 	for k, v := range s.globals {
 		n.globals[k] = v
+	}
+	n.callHeaps = map[string]map[string]string{}
+	for k, v := range s.callHeaps {
+		n.callHeaps[k] = v
 	}
 	n.larr = map[ssa.Value]*LocalArr{}
 	for k, v := range s.larr {
@@ -987,6 +992,8 @@ func (e *Exec) instr(st *State, b *ssa.BasicBlock, ins ssa.Instruction) (stop bo
 		np := *p
 		np.Path = append(append([]int{}, p.Path...), x.Field)
 		st.ptrs[x] = &np
+	case *ssa.Field:
+		st.vals[x] = e.project(e.val(st, x.X), x.X.Type(), []int{x.Field})
 	case *ssa.IndexAddr:
 		idx := e.val(st, x.Index)
 		switch t := x.X.Type().Underlying().(type) {
@@ -1010,6 +1017,13 @@ func (e *Exec) instr(st *State, b *ssa.BasicBlock, ins ssa.Instruction) (stop bo
 	case *ssa.UnOp:
 		switch x.Op {
 		case token.MUL:
+			if g, ok := x.X.(*ssa.Global); ok && e.cs != nil {
+				if t, ok := e.cs.GlobalVals[g.Pkg.Pkg.Path()+"."+g.Name()]; ok {
+					e.sorts.SortOf(g.Type().Underlying().(*types.Pointer).Elem())
+					st.vals[x] = t
+					return false
+				}
+			}
 			if g, ok := x.X.(*ssa.Global); ok && !isStruct(g.Type().Underlying().(*types.Pointer).Elem()) {
 				gn := "G_" + sanitize(g.Pkg.Pkg.Path()+"."+g.Name())
 				if v, ok := st.globals[gn]; ok {
@@ -1270,10 +1284,59 @@ func (e *Exec) instr(st *State, b *ssa.BasicBlock, ins ssa.Instruction) (stop bo
 		if e.contract != nil {
 			e.contractPost(st, x, rs)
 		}
-		// frame: modifies nothing
-		for _, hn := range e.sorts.HeapNames() {
-			if cur, ok := st.heap[hn]; ok && cur != hn+"_0" && !e.noFrame[hn] {
-				e.oblige(st, "frame."+hn, fmt.Sprintf("(forall ((r Int)) (=> (and (<= 0 r) (< r nextRef0)) (= (select %s r) (select %s_0 r))))", cur, hn))
+		// frame: nothing that existed at entry changes, except the locations named by assigns clauses (only those
+		// fields of those objects) and the heaps named by modifies
+		type asg struct {
+			ref  string
+			root types.Type
+			path []int
+		}
+		assigned := map[string][]asg{}
+		if e.contract != nil && len(e.contract.Assigns) > 0 {
+			oc := e.newCtx(st)
+			oc.old = true
+			for _, a := range e.contract.Assigns {
+				func() {
+					defer func() {
+						if r := recover(); r != nil {
+							if be, isB := r.(BindingError); isB {
+								e.undecided = append(e.undecided, "assigns: "+be.msg)
+								return
+							}
+							panic(r)
+						}
+					}()
+					lv := oc.Lvalue(a.E)
+					hn := e.sorts.HeapObj(e.sorts.SortOf(lv.Root))
+					assigned[hn] = append(assigned[hn], asg{lv.Ref, lv.Root, lv.Path})
+				}()
+			}
+		}
+		if e.contract == nil || !e.contract.NoFrame {
+			for _, hn := range e.sorts.HeapNames() {
+				cur, ok := st.heap[hn]
+				if !ok || cur == hn+"_0" || e.noFrame[hn] {
+					continue
+				}
+				as := assigned[hn]
+				if len(as) == 0 {
+					e.oblige(st, "frame."+hn, fmt.Sprintf("(forall ((r Int)) (=> (and (<= 0 r) (< r nextRef0)) (= (select %s r) (select %s_0 r))))", cur, hn))
+					continue
+				}
+				var ne []string
+				for _, a := range as {
+					ne = append(ne, fmt.Sprintf("(not (= r %s))", a.ref))
+				}
+				e.oblige(st, "frame."+hn, fmt.Sprintf("(forall ((r Int)) (=> (and (<= 0 r) (< r nextRef0) %s) (= (select %s r) (select %s_0 r))))", strings.Join(ne, " "), cur, hn))
+				for i, a := range as { // the assigned object differs from its old value at most in the assigned fields
+					want := fmt.Sprintf("(select %s_0 %s)", hn, a.ref)
+					for _, b := range as {
+						if b.ref == a.ref {
+							want = e.update(want, b.root, b.path, e.project(fmt.Sprintf("(select %s %s)", cur, a.ref), b.root, b.path))
+						}
+					}
+					e.oblige(st, fmt.Sprintf("frame.%s.assigned%d", hn, i+1), fmt.Sprintf("(=> (< %s nextRef0) (= (select %s %s) %s))", a.ref, cur, a.ref, want))
+				}
 			}
 		}
 		e.paths++
@@ -1711,7 +1774,7 @@ func (e *Exec) contractPost(st *State, ret *ssa.Return, rs []string) {
 	for _, g := range e.contract.GhostRets { // not bound on paths where the expression does not exist (guard its uses)
 		n0 := len(e.undecided)
 		if t, ok := e.safeCompile(c, g.Cl, "ghostret "+g.Name); ok {
-			c.vars[g.Name] = CVal{T: t, Sort: g.Sort}
+			c.vars[g.Name] = e.ghostVal(g, t)
 		}
 		e.undecided = e.undecided[:n0]
 	}
@@ -1740,6 +1803,17 @@ func (e *Exec) contractPre(st *State) {
 }
 
 // applyContract uses a callee's contract at a call site: check requires, make fresh results, assume ensures.
+// ghostVal: a ghost result is declared with an SMT sort or with a Go type ("gopki/generator/cert.Certificate").
+func (e *Exec) ghostVal(g GhostRet, term string) CVal {
+	if strings.Contains(g.Sort, "/") || (strings.Contains(g.Sort, ".") && !strings.HasPrefix(g.Sort, "(")) {
+		if t := e.prog.NamedType(expandType(g.Sort)); t != nil {
+			return CVal{T: term, Sort: e.sorts.SortOf(t), GoT: t}
+		}
+		bindFail("ghostret %s: unknown type %s", g.Name, g.Sort)
+	}
+	return CVal{T: term, Sort: g.Sort}
+}
+
 func (fc *FuncContract) usesFresh() bool {
 	for _, cl := range fc.Ensures {
 		if strings.Contains(cl.Src, "fresh(") {
@@ -1863,9 +1937,11 @@ func (e *Exec) applyContract(st *State, call *ssa.Call, fc *FuncContract, args [
 	}
 	e.resultVals(c, fc.Returns, rs, res)
 	for _, g := range fc.GhostRets {
-		gt := e.fresh("ghost_"+g.Name, g.Sort)
-		c.vars[g.Name] = CVal{T: gt, Sort: g.Sort}
-		st.snaps[fmt.Sprintf("ghost:%s#%d.%s", fc.Name, cnt, g.Name)] = g.Sort + "\x01" + gt
+		gv := e.ghostVal(g, "")
+		gt := e.fresh("ghost_"+g.Name, gv.Sort)
+		gv.T = gt
+		c.vars[g.Name] = gv
+		st.snaps[fmt.Sprintf("ghost:%s#%d.%s", fc.Name, cnt, g.Name)] = gv.Sort + "\x01" + gt
 	}
 	for _, cl := range append(append([]Clause{}, fc.Ensures...), fc.Abstracts...) {
 		if t, ok := e.safeCompile(c, cl, "ensures of "+fc.Name); ok {
@@ -1875,6 +1951,14 @@ func (e *Exec) applyContract(st *State, call *ssa.Call, fc *FuncContract, args [
 	if len(fc.Abstracts) > 0 {
 		e.applied["abstraction clause of "+fc.Name]++
 	}
+	hs := map[string]string{}
+	for k, v := range st.heap {
+		hs[k] = v
+	}
+	if st.callHeaps == nil {
+		st.callHeaps = map[string]map[string]string{}
+	}
+	st.callHeaps[fmt.Sprintf("%s#%d", fc.Name, cnt)] = hs
 	return strings.Join(rs, "\x00")
 }
 
